@@ -542,6 +542,8 @@ class Executor:
 
     def st_Raise(self, s, env):
         exc = None
+        if s.exc is None and getattr(self, "current_exc", None):
+            raise RaiseSig(self.current_exc[-1].exc, s, self.current_exc[-1].info)       # bare `raise` inside a handler
         if s.exc is not None:
             call = s.exc
             exc_node = call.func if isinstance(call, ast.Call) else call
@@ -554,11 +556,48 @@ class Executor:
     def st_Continue(self, s, env):
         raise ContinueSig()
 
+    NOT_EXCEPTION = {"KeyboardInterrupt", "SystemExit", "GeneratorExit", "BaseException", "BlockBaseException"}
+
+    def _handler_catches(self, h, exc, env):
+        """does `except <type>` catch an exception named exc?  Only the forms whose answer does not depend on a class
+        hierarchy the model does not know: bare except / BaseException (everything), Exception (everything that is not one of
+        the BaseException-only kinds), the very same name."""
+        if h.type is None:
+            return True
+        if not isinstance(h.type, ast.Name):
+            raise Unsupported("except clause with this type expression", h)
+        t = h.type.id
+        if t == "BaseException":
+            return True
+        if t == "Exception":
+            return exc not in self.NOT_EXCEPTION
+        if exc is None:
+            raise Unsupported("re-raised exception of unknown kind meets a typed except clause", h)
+        if t == exc or exc.endswith("." + t):
+            return True
+        if exc in ("BlockException", "BlockBaseException"):
+            return False               # an arbitrary exception of the caller's block is not this specific type
+        raise Unsupported(f"except {t} against {exc}: class hierarchy not modelled", h)
+
     def st_Try(self, s, env):
-        if s.handlers or s.orelse:
-            raise Unsupported("try/except", s)
+        if s.orelse:
+            raise Unsupported("try/else", s)
         try:
-            self.run(s.body, env)
+            try:
+                self.run(s.body, env)
+            except RaiseSig as e:
+                for h in s.handlers:
+                    if self._handler_catches(h, e.exc, env):
+                        if h.name:
+                            env[h.name] = V.ExcValue(e.exc) if hasattr(V, "ExcValue") else e.exc
+                        self.current_exc = getattr(self, "current_exc", []) + [e]
+                        try:
+                            self.run(h.body, env)
+                        finally:
+                            self.current_exc.pop()
+                        break
+                else:
+                    raise
         except (ReturnSig, RaiseSig, BreakSig, ContinueSig):
             self.run(s.finalbody, env)
             raise
